@@ -1353,6 +1353,12 @@ pub fn configs(prop: CProp, tier: Tier) -> Vec<CCfg> {
                                 mif, 1, *fl, *cap, alpha,
                             ));
                         }
+                        // the peer answers with an application error (whose kind says TimedOut):
+                        // it is a reply like any other and wins against the deadline
+                        out.push(base(
+                            vec![CallerCfg { deadline_ms: *d0, reply_err: true, ..CallerCfg::simple(true) }],
+                            mif, 1, *fl, *cap, alpha,
+                        ));
                         for d1 in [1i64, 50, 10_000] {
                             if !thorough && *d0 > 1000 {
                                 continue;
@@ -1399,6 +1405,14 @@ pub fn configs(prop: CProp, tier: Tier) -> Vec<CCfg> {
                         }
                     }
                 }
+            }
+            // four callers over a request buffer of two: two of them wait for room at the same
+            // time, get it together, and may hand their requests over in either order (ids are
+            // drawn before the wait), so requests can reach the dispatch out of id order
+            // (seeded change C01e assumed they cannot and dropped the "impossible" reply)
+            for mif in [2usize, 4] {
+                let callers: Vec<CallerCfg> = (0..4).map(|_| CallerCfg::simple(true)).collect();
+                out.push(base(callers, mif, 2, Flavour::Always, 1, A_REPLY_UNOWED | A_DRAIN));
             }
         }
         CProp::C09 => {
